@@ -2075,9 +2075,9 @@ TABLE["C11"] += [
 ]
 TABLE["C06"] += [
     B("vector-guard-with-a-bare-alternative", {"M16"},
-      (MW, "                var_arg_wrap += ' && size(varargin{{{num}}},2)==1'.format(\n                    num=i)", "                var_arg_wrap += ' && size(varargin{{{num}}},2)==1 || isempty(varargin{{{num}}})'.format(\n                    num=i)")),
+      (MW, "            if name == 'Vector':\n                var_arg_wrap += ' && size(varargin{{{num}}},2)==1'.format(\n                    num=i)", "            if name == 'Vector':\n                var_arg_wrap += ' && size(varargin{{{num}}},2)==1 || isempty(varargin{{{num}}})'.format(\n                    num=i)")),
     N("vector-guard-with-a-parenthesised-alternative",
-      (MW, "                var_arg_wrap += ' && size(varargin{{{num}}},2)==1'.format(\n                    num=i)", "                var_arg_wrap += ' && (size(varargin{{{num}}},2)==1 || isempty(varargin{{{num}}}))'.format(\n                    num=i)")),
+      (MW, "            if name == 'Vector':\n                var_arg_wrap += ' && size(varargin{{{num}}},2)==1'.format(\n                    num=i)", "            if name == 'Vector':\n                var_arg_wrap += ' && (size(varargin{{{num}}},2)==1 || isempty(varargin{{{num}}}))'.format(\n                    num=i)")),
     B("constructor-routine-formatted-twice", {"M18"},
       (MW, "                                      base=base)\n", "                                      base=base).format()\n")),
 ]
